@@ -69,7 +69,7 @@ def _run_scenario(job):
             wkw = payload.pop("world", {})
             steps = mailgen.gen_scenario(seed, **payload)
             tr = mailgen.execute(steps, seed=seed, **wkw)
-            return {"kind": kind, "seed": seed, "trace": tr, "drift": [], "steps": steps}
+            return {"kind": kind, "seed": seed, "trace": tr, "drift": [], "steps": steps, "world": wkw}
         elif kind == "directed":
             from harness import mailgen
             tr = mailgen.execute(payload["steps"], seed=seed, pack_limit=3, pack_ratio=0.75)
@@ -135,11 +135,45 @@ def validate(traces, tmpdir, chunks=12):
 
 
 # ---------------------------------------------------------------------------
+def replay_file(ck, path, prefixes):
+    """bin/check Cxx --replay <file>: executes the recorded history again on the current /repo tree and has TLC
+    judge it; the violation is reported again if it is still there.  (A replay of a TLC behaviour or of the
+    model's own counterexample carries no steps: its recorded excerpt is printed instead.)"""
+    from harness import mailgen, show
+    d = json.load(open(path))
+    if not d.get("steps"):
+        print(f"[{ck.prop}] replay file without executable steps ({d.get('kind', 'model')}): recorded excerpt follows")
+        for ln in (d.get("excerpt") or [d.get("tlc_out", "")[-3000:]]):
+            print("   ", ln)
+        return
+    steps = [tuple(st) for st in d["steps"]]
+    tr = mailgen.execute(steps, seed=d.get("seed", 0), **(d.get("world") or {}))
+    tmp = tempfile.mkdtemp(prefix="verif-mfr-")
+    try:
+        viols, done, nsteps, errs = validate([tr], tmp, chunks=1)
+        if errs:
+            raise RuntimeError("TLC trace validation failed: " + errs[0][:800])
+        ck.cov["traces_validated_against_impl"] = 1
+        ck.cov["evaluations"] = len(tr)
+        ck.cov["rule"] = f"replay of {path}"
+        for ti, line, act, clause in viols:
+            if any(clause.startswith(p) for p in prefixes):
+                lo = max(1, tr[line - 1]["pre"] - 2)
+                print(show.show(tr, lo, line, ["inbox", "b"]))
+                ck.violation(clause, act=act, where=f"replay:{d.get('seed')}:line{line}",
+                             detail=show.ev_line(tr[line - 1], ["inbox", "b"]).replace("\n", " | ")[:300],
+                             replay_obj=dict(d, line=line, clause=clause))
+    finally:
+        shutil.rmtree(tmp, ignore_errors=True)
+
+
 def run_family(ck, prefixes, *, model_prop, quick, thorough):
     """prefixes: clause prefixes that belong to the property ("C01.")."""
     from harness import mailreplay, show
 
     P = thorough if ck.tier == "thorough" else quick
+    if getattr(ck, "replay_path", None):
+        return replay_file(ck, ck.replay_path, prefixes)
     tmp = tempfile.mkdtemp(prefix="verif-mf-")
     try:
         # 1. exhaustive (depth-bounded) model check of the protocol layer
@@ -243,7 +277,7 @@ def run_family(ck, prefixes, *, model_prop, quick, thorough):
             lo = max(1, tr[line - 1]["pre"] - 2)
             ck.violation(clause, act=act, where=f"{meta[ti]['kind']}:{meta[ti]['seed']}:line{line}",
                          detail=show.ev_line(tr[line - 1], ["inbox", "b"]).replace("\n", " | ")[:300],
-                         replay_obj={"kind": meta[ti]["kind"], "seed": meta[ti]["seed"],
+                         replay_obj={"kind": meta[ti]["kind"], "seed": meta[ti]["seed"], "world": meta[ti].get("world", {}),
                                      "steps": meta[ti]["steps"], "line": line, "clause": clause,
                                      "excerpt": show.show(tr, lo, line, ["inbox", "b"]).splitlines()})
         ck.assumptions += [
